@@ -2,6 +2,7 @@ import InfluxQL.Model.ParserStmt
 import InfluxQL.Model.PrintStmt
 import InfluxQL.Lemmas.Digits
 import InfluxQL.Lemmas.ParserTok
+import InfluxQL.Lemmas.RegexRoundTrip
 import InfluxQL.Props.C01
 import InfluxQL.Props.C08
 /-
@@ -68,6 +69,35 @@ duration, for every value except `MinInt64` (whose magnitude does not fit). -/
 theorem duration_print_parse (d : Int) (hmin : minInt64 < d) (hmax : d ≤ maxInt64) :
     parseDuration (formatDuration d) = .ok d :=
   C08.parse_format d hmin hmax
+
+/-! ## regular expressions -/
+
+/-- `RegexLiteral.String()` writes `/` ++ source with every `/` escaped ++ `/`. `ScanRegex` on that
+text (followed by anything, `k`) returns the REGEX token carrying the source and stops right after
+the closing slash — for every source without newline and NUL that does not end in a backslash. -/
+theorem regex_print_scan (r : Cursor) (q0 q : Pos) (l k : List (Char × Pos)) (src : List Char)
+    (hr : r.rest = ('/', q0) :: (l ++ ('/', q) :: k))
+    (hl : l.map Prod.fst = escapeSlashes src)
+    (hok : RegexRunes src) (hend : endsBS src = false) :
+    (scanRegex r).1 = ⟨.REGEX, r.prev.2, src⟩ ∧ (scanRegex r).2.rest = k :=
+  scanRegex_print r q0 q l k src hr hl hok hend
+
+/-- Conversely every source `ScanRegex` can return has that shape, so the hypothesis of
+`regex_print_scan` excludes no regex that was *written as text*. (A regex bound through a
+parameter can end in a backslash; that case is outside the property.) -/
+theorem regex_scan_image (fin : Pos) (l : List (Char × Pos)) (pv : Char × Pos) (n : Nat) (out : List Char)
+    (h : (scanRegexLoop fin l [] false pv n).1 = some out) :
+    RegexRunes out ∧ endsBS out = false :=
+  scanRegexLoop_image fin l [] false pv n out (fun _ hc => by cases hc) (fun _ => rfl) h
+
+/-- Non-vacuity: the source `a/b\.c` is printed as `/a\/b\.c/` and scanned back. -/
+example : (scanRegex (Cursor.ofRunes "/a\\/b\\.c/ rest".toList)).1.lit = "a/b\\.c".toList := by decide
+
+example : escapeSlashes "a/b\\.c".toList = "a\\/b\\.c".toList := by decide
+
+/-- Why the hypothesis is needed: the source `a\` is printed as `/a\/`, whose last slash the
+scanner takes for an escaped one. -/
+example : (scanRegex (Cursor.ofRunes "/a\\/".toList)).1.tok = .BADREGEX := by decide
 
 /-! ## passwords -/
 
